@@ -122,6 +122,25 @@ pub fn main(reg: Registry) {
     if let Some(v) = arg(&args, "--exh-pair-bits").and_then(|s| s.parse().ok()) {
         cfg.exh_pair_bits = v;
     }
+    if args.iter().any(|a| a == "--miri-workload") {
+        // reduced boundary workload for the interpreter (about 10-15 ms per monitored operation)
+        cfg.exh_raw_bits = 3;
+        cfg.exh_val_bits = 2;
+        cfg.exh_pair_bits = 5;
+        cfg.n_rand_raw = 2;
+        cfg.n_rand_val = 2;
+        cfg.n_twin_raws = 0;
+        cfg.hist_count = 2;
+        cfg.hist_len = 6;
+        cfg.long_hist_len = 12;
+    }
+    let (slice_k, slice_n): (usize, usize) = match arg(&args, "--slice") {
+        Some(s) => {
+            let mut it = s.split('/');
+            (it.next().and_then(|x| x.parse().ok()).unwrap_or(0), it.next().and_then(|x| x.parse().ok()).unwrap_or(1).max(1))
+        }
+        None => (0, 1),
+    };
     if args.iter().any(|a| a == "--list") {
         for c in &reg.subjects {
             println!("{}", c().desc().id);
@@ -152,6 +171,10 @@ pub fn main(reg: Registry) {
                     let mut ctx = Ctx::new(&cfg, &prop, &profile);
                     let mut k = t;
                     while k < subjects.len() {
+                        if k % slice_n != slice_k {
+                            k += threads;
+                            continue;
+                        }
                         let mut s = subjects[k]();
                         k += threads;
                         let id = s.desc().id;
@@ -167,6 +190,10 @@ pub fn main(reg: Registry) {
                     if matches!(prop.as_str(), "C07" | "C10" | "C16") {
                         let mut k = t;
                         while k < enums.len() {
+                            if k % slice_n != slice_k {
+                                k += threads;
+                                continue;
+                            }
                             let e = enums[k]();
                             k += threads;
                             let id = e.desc().id;
